@@ -324,6 +324,11 @@ type Info struct {
 func Inspect(node datamodel.Node) (Info, error) {
 	var res Info
 
+	// the envelope is exactly [signature, SigPayload]: anything more would be outside the signed part
+	if node.Kind() != datamodel.Kind_List || node.Length() != 2 {
+		return Info{}, fmt.Errorf("expected an envelope of two elements")
+	}
+
 	signatureNode, err := node.LookupByIndex(0)
 	if err != nil {
 		return Info{}, err
